@@ -181,7 +181,7 @@ fn pack_b_impl<const NR: usize, const K_TILE: usize, T: Byte>(
         let meta = PackedBMeta {
             col_sums,
             zero_points: if let Some(zp) = zero_point {
-                std::array::from_fn(|c| i32::from(cast(zp[c])))
+                std::array::from_fn(|c| i32::from(cast(zp[col_panel * NR + c])))
             } else {
                 [i32::from(cast(0)); NR]
             },
@@ -432,7 +432,7 @@ fn pack_a_impl<const MR: usize, const K_TILE: usize, L>(
         let meta = PackedAMeta {
             row_sums,
             zero_points: if let Some(zp) = zero_point {
-                std::array::from_fn(|r| zp[r] as i32)
+                std::array::from_fn(|r| zp[row_tile * MR + r] as i32)
             } else {
                 [0; MR]
             },
